@@ -47,6 +47,94 @@ impl SinkInfo for FaultIo {
     fn pos(&self) -> u64 { self.inner.position() }
 }
 
+
+/// open + read every entry with a SMALL caller buffer; after the first error of an entry, `read` is called once
+/// more on the same `ZipFile` (callers do retry), then the next entry is read.  Archives with encrypted and
+/// compressed entries (`pw` for the encrypted ones).  Oracle-only: the model does not describe per-call
+/// behaviour of the external cipher / codec layers, the property does not need it either (no panic; all calls
+/// Ok implies the failure-free result).
+fn run_enc(bytes: Vec<u8>, pw: &[u8], bufsz: usize, k: Option<u64>) -> (String, u64, bool) {
+    let io = FaultIo::new(bytes, k);
+    let calls = io.calls.clone();
+    let pw = pw.to_vec();
+    let r = catch(std::panic::AssertUnwindSafe(move || {
+        let mut any_err = false;
+        let mut a = match zip::ZipArchive::new(io) { Ok(a) => a, Err(e) => return (format!("open={}", super::read::cls_z(&e)), true) };
+        let mut s = format!("open=ok n={}", a.len());
+        let mut buf = vec![0u8; bufsz.max(1)];
+        for i in 0..a.len() {
+            let opened = if pw.is_empty() { a.by_index(i).map(Ok) } else { a.by_index_decrypt(i, &pw) };
+            let r = match opened {
+                Err(e) => { any_err = true; super::read::cls_z(&e) }
+                Ok(Err(_)) => { any_err = true; "err:invalidpassword".to_string() }
+                Ok(Ok(mut f)) => {
+                    let mut h = crc32fast::Hasher::new();
+                    let mut n = 0usize;
+                    let res;
+                    loop {
+                        match f.read(&mut buf) {
+                            Ok(0) => { res = format!("ok:{}:{}", h.clone().finalize(), n); break; }
+                            Ok(c) => { h.update(&buf[..c]); n += c; }
+                            Err(e) => {
+                                any_err = true;
+                                // the caller tries again: this must not panic
+                                let again = match f.read(&mut buf) { Ok(c) => format!("ok{c}"), Err(_) => "err".to_string() };
+                                res = format!("{}+retry:{again}", super::read::cls_io(&e));
+                                break;
+                            }
+                        }
+                    }
+                    res
+                }
+            };
+            s += &format!(" {i}={r}");
+        }
+        (s, any_err)
+    }));
+    match r { Ok((s, e)) => (s, calls.get(), e), Err(_) => ("panic".into(), calls.get(), true) }
+}
+
+fn enc_archive(r: &mut Rng) -> (Vec<u8>, Vec<u8>) {
+    use std::io::Write;
+    match r.below(4) {
+        0 | 1 => {
+            // WinZip AES (built by the harness's own AE-x encryptor): tiny payloads make the last ciphertext chunk
+            // shorter than the authentication code
+            let pw = b"fault-pw".to_vec();
+            let n = *r.pick(&[0usize, 1, 5, 10, 11, 26, 100]);
+            let plain = r.bytes(n);
+            let salt_len = *r.pick(&[8usize, 12, 16]);
+            let bits = match salt_len { 8 => 128, 12 => 192, _ => 256 };
+            let salt = r.bytes(salt_len);
+            (super::aes::aes_archive(*r.pick(&[1u16, 2]), bits, *r.pick(&[0u16, 8]), &pw, &plain, &salt), pw)
+        }
+        2 => {
+            // ZipCrypto entries written by the crate
+            let pw = b"zc".to_vec();
+            let mut w = zip::ZipWriter::new(Cursor::new(vec![]));
+            for i in 0..r.range(1, 3) {
+                let o = zip::write::FileOptions::default().compression_method(*r.pick(&[zip::CompressionMethod::Stored, zip::CompressionMethod::Deflated]));
+                use zip::unstable::write::FileOptionsExt;
+                let _ = w.start_file(format!("e{i}"), o.with_deprecated_encryption(&pw));
+                let n = r.below(60) as usize;
+                let _ = w.write_all(&r.bytes(n));
+            }
+            (w.finish().map(|c| c.into_inner()).unwrap_or_default(), pw)
+        }
+        _ => {
+            // compressed, unencrypted
+            let mut w = zip::ZipWriter::new(Cursor::new(vec![]));
+            for i in 0..r.range(1, 4) {
+                let o = zip::write::FileOptions::default().compression_method(*r.pick(&[zip::CompressionMethod::Deflated, zip::CompressionMethod::Bzip2, zip::CompressionMethod::Zstd]));
+                let _ = w.start_file(format!("c{i}"), o);
+                let n = r.below(300) as usize;
+                let _ = w.write_all(&b"abcabcabd".repeat(n / 9 + 1)[..n]);
+            }
+            (w.finish().map(|c| c.into_inner()).unwrap_or_default(), vec![])
+        }
+    }
+}
+
 fn k_of(a: &std::collections::BTreeMap<String, String>) -> Option<u64> {
     match a.get("k").map(|s| s.as_str()) { None | Some("none") => None, Some(v) => v.parse().ok() }
 }
@@ -144,7 +232,7 @@ impl Stream for Fault {
     fn gen(&self, seed: u64, tier: &str) -> GenOut {
         let mut g = GenOut::default();
         g.rule = "scenarios: (read) open + read every entry of small stored archives from the independent builder (prefix, ZIP64 end records, descriptors, comments) and the writer; (write) stored call sequences incl. directories, symlinks, extra data, comments, finish/drop, second finish, and append onto bases; for each scenario the fault-free run and then a hard error injected at EVERY I/O call index k (exhaustive per scenario). non-trivial = a fault run (k given)".into();
-        let nscen = if tier == "thorough" { 1500 } else { 40 };
+        let nscen = if tier == "thorough" { 2000 } else { 64 };
         for i in 0..nscen {
             let mut r = super::rng_for(seed, "fault", i);
             if i % 2 == 0 {
@@ -164,6 +252,14 @@ impl Stream for Fault {
                 let (_, n) = run_read(bytes.clone(), None);
                 g.push("read.free", format!("fault.read bytes={} k=none", hex(&bytes)));
                 for k in 0..n { g.push("read.k", format!("fault.read bytes={} k={k}", hex(&bytes))); }
+            } else if i % 4 == 3 {
+                // encrypted / compressed read scenario, small caller buffers, retry after an error (oracle only)
+                let (bytes, pw) = enc_archive(&mut r);
+                let bufsz = *r.pick(&[1usize, 8, 64, 1 << 16]);
+                let (_, n, _) = run_enc(bytes.clone(), &pw, bufsz, None);
+                let pwh = if pw.is_empty() { "-".to_string() } else { hex(&pw) };
+                g.push("enc.free", format!("fault.enc bytes={} pw={pwh} buf={bufsz} k=none", hex(&bytes)));
+                for k in 0..n { g.push("enc.k", format!("fault.enc bytes={} pw={pwh} buf={bufsz} k={k}", hex(&bytes))); }
             } else {
                 let base = if r.chance(1, 4) {
                     let c = write_scenario(&mut r, None);
@@ -187,6 +283,7 @@ impl Stream for Fault {
                 let (s, n) = run_read(get_hex(&a, "bytes").unwrap_or_default(), k);
                 format!("{s} ncalls={n}")
             }
+            "fault.enc" => "oracle-only".into(),
             "fault.write" => {
                 let calls: Vec<String> = a.get("calls").map(|c| c.split(';').map(|s| s.to_string()).collect()).unwrap_or_default();
                 if calls.is_empty() { return "bad-op".into(); }
@@ -207,6 +304,18 @@ impl Stream for Fault {
         }
         let (op, a) = parse_line(line);
         let k = k_of(&a);
+        if op == "fault.enc" {
+            let bytes = get_hex(&a, "bytes").unwrap_or_default();
+            let pw = get_hex(&a, "pw").unwrap_or_default();
+            let bufsz = get_u64(&a, "buf").unwrap_or(8) as usize;
+            let (res, _, any_err) = run_enc(bytes.clone(), &pw, bufsz, k);
+            if res.contains("panic") { f.push(OracleFailure { what: format!("panic under an injected I/O fault (encrypted/compressed entries, retry after the error): k={k:?}") }); return f; }
+            if k.is_some() && !any_err {
+                let (free, _, _) = run_enc(bytes, &pw, bufsz, None);
+                if res != free { f.push(OracleFailure { what: format!("reader: every call succeeded under the fault but the result differs from the fault-free run: `{res}` vs `{free}`") }); }
+            }
+            return f;
+        }
         if k.is_none() { return f; }
         match op.as_str() {
             "fault.read" => {
